@@ -7,7 +7,7 @@ from cases import CaseSet
 from qgen import query3d, prop_list, offsets
 from wbgen import width
 from worlds import area_world, any_world
-from qgen import line_query
+from qgen import line_query, TOP
 
 ALL = [[1, 0, 0], [2, 0, 0], [2, 1, 0], [2, 2, 0], [2, 3, 0], [3, 0, 2], [3, 1, 1], [4, 0, 0], [5, 0, 0]]
 
@@ -127,8 +127,71 @@ def run(chk):
             lq, ld = line_query(rng, wj, False, lf, spread=rng.choice([0.15, 0.3, 0.6]))
             if ld >= 0:
                 cs.p3(slot, lq, ld, [[1, 0, 0], [2, 0, 0], [2, 1, 0], [2, 2, 0], [2, 3, 0], [4, 0, 0]])
+    # (f2) a composition listed with the fraction 0: a slab / fault (alternating) whose uniform composition model lists one
+    # composition with fraction exactly 0 and one with a non-zero fraction, every operation in turn, over a plate that has painted
+    # all four compositions: "replace defined only" must overwrite the listed composition with 0 and leave the unlisted ones alone
+    for wi in range(8 if chk.tier == "quick" else 80):
+        rng.seed("%d/c02-2z/%d" % (chk.seed, wi))      # every world has its own stream: families do not disturb each other
+        kind = "fault" if wi % 2 == 0 else "subducting plate"
+        wj, sph, lf = line_world(rng, kind=kind, spherical=False, straight=True, uniform_sections=True, allow_mass_conserving=False, extra_area=1.0)
+        under = wj["features"][0]
+        for k in ("temperature models", "composition models", "grains models", "velocity models", "min depth"):
+            under.pop(k, None)
+        under["max depth"] = 9e5
+        under["composition models"] = [{"model": "uniform", "compositions": [0, 1, 2, 3], "fractions": [round(rng.uniform(0.1, 1), 3) for _ in range(4)]}]
+        for k in ("temperature models", "composition models", "grains models", "velocity models", "sections"):
+            lf.pop(k, None)
+        for sg in lf["segments"]:
+            for k in ("temperature models", "composition models", "grains models", "velocity models"):
+                sg.pop(k, None)
+        listed = rng.sample(range(4), 2)
+        cm = {"model": "uniform", "compositions": listed, "fractions": [0.0, round(rng.uniform(0.1, 1), 3)],
+              "operation": ["replace defined only", "replace", "add", "subtract"][(wi // 2) % 4]}
+        if wi % 3 == 0:
+            lf["segments"][0]["composition models"] = [cm]
+            lf["composition models"] = [dict(cm, fractions=[round(rng.uniform(0.1, 1), 3), 0.0])]
+        else:
+            lf["composition models"] = [cm]
+        slot = cs.add_world(wj)
+        for _k in range(12):
+            lq, ld = line_query(rng, wj, False, lf, spread=rng.choice([0.1, 0.2, 0.4]))
+            if ld >= 0:
+                cs.p3(slot, lq, ld, [[2, 0, 0], [2, 1, 0], [2, 2, 0], [2, 3, 0], [4, 0, 0]])
+    # (f3) the same for the three area feature types and the plume: an upper feature that lists a composition with fraction 0
+    for wi in range(8 if chk.tier == "quick" else 80):
+        rng.seed("%d/c02-3z/%d" % (chk.seed, wi))      # every world has its own stream: families do not disturb each other
+        gg = Gen(rng)
+        lower = gg.area_feature("lower", False, kinds=("mantle layer",), centre=(0.0, 0.0), size=9e5, depth_arrays=0)
+        for k in ("temperature models", "grains models", "velocity models", "min depth"):
+            lower.pop(k, None)
+        lower["max depth"] = 6e5
+        lower["composition models"] = [{"model": "uniform", "compositions": [0, 1, 2, 3], "fractions": [round(rng.uniform(0.1, 1), 3) for _ in range(4)]}]
+        ukind = ("continental plate", "oceanic plate", "mantle layer", "plume")[wi % 4]
+        if ukind == "plume":
+            upper = gg.plume("upper", False, centre=(0.0, 0.0))
+        else:
+            upper = gg.area_feature("upper", False, kinds=(ukind,), centre=(0.0, 0.0), size=4e5, depth_arrays=0)
+            upper.pop("min depth", None)
+            upper["max depth"] = 3e5
+        for k in ("temperature models", "grains models", "velocity models"):
+            upper.pop(k, None)
+        listed = rng.sample(range(4), 2)
+        upper["composition models"] = [{"model": "uniform", "compositions": listed, "fractions": [0.0, round(rng.uniform(0.1, 1), 3)],
+                                        "operation": ["replace defined only", "replace", "add", "subtract"][(wi // 4) % 4]}]
+        wj = {"version": "1.1", "features": [lower, upper]}
+        slot = cs.add_world(wj)
+        for _k in range(8):
+            d = float(round(rng.uniform(0.0, 2.5e5)))
+            if ukind == "plume":
+                ds = upper["cross section depths"]
+                j = rng.randrange(len(ds))
+                a = upper["semi-major axis"][j] * 0.4
+                d = float(round(rng.uniform(upper.get("min depth", 0.0), min(upper.get("max depth", ds[-1]), ds[-1]))))
+                p = (upper["coordinates"][j][0] + rng.uniform(-a, a), upper["coordinates"][j][1] + rng.uniform(-a, a), TOP - d)
+            else:
+                p = (rng.uniform(-1.5e5, 1.5e5), rng.uniform(-1.5e5, 1.5e5), TOP - d)
+            cs.p3(slot, p, d, [[2, 0, 0], [2, 1, 0], [2, 2, 0], [2, 3, 0], [4, 0, 0]])
     # (g) a plume painted over an area feature, every composition / temperature operation, compositions the plume does not list
-    from qgen import TOP
     for wi in range(10 if chk.tier == "quick" else 120):
         rng.seed("%d/c02-3/%d" % (chk.seed, wi))      # every world has its own stream: families do not disturb each other
         gg = Gen(rng)
